@@ -19,4 +19,5 @@ if [ -d litmus ]; then
   # SCHED checks. A failure is reported loudly but does not stop the set-up of the other engines.
   ./litmus.sh || echo "WARNING: litmus suite failed (see above); SCHED results are suspect"
 fi
+./loopvar_test.sh || echo "WARNING: the instrumenting pass changes loop-variable semantics (see above); SCHED results are suspect"
 echo "setup ok"
